@@ -781,7 +781,7 @@ structure Tame (S : Scanners) (layers : List FSLayer) : Prop where
   hidesSpec : ∀ l ∈ layers, ∀ l' ∈ layers, ∀ p ∈ langPkgs S l',
     hides l p.fp = (whiteoutFiles l).any fun w => covers w p.fp
   /-- an OS package database is never hidden and never lists nothing (findings os-db-removed, os-db-emptied) -/
-  osDb : ∀ d ∈ S.osDbs, ∀ l ∈ layers, hides l d = false ∧ ∀ c ∈ fileOf l d, S.scanDB d c ≠ []
+  osDb : ∀ d ∈ S.allDbs, ∀ l ∈ layers, hides l d = false ∧ ∀ c ∈ fileOf l d, S.scanDB d c ≠ []
   /-- a language package file is not overwritten by a later layer with another package, unless that
       layer also whites the old one out (finding lang-overwrite-in-place) -/
   noOverwrite : layers.Pairwise fun l l' => ∀ e ∈ l.entries, ∀ c ∈ fileOf l e.1, ∀ p ∈ S.scanFile e.1 c,
@@ -789,7 +789,7 @@ structure Tame (S : Scanners) (layers : List FSLayer) : Prop where
   /-- a language package id lives at one path (finding lang-same-package-two-paths) -/
   onePath : ∀ l ∈ layers, ∀ l' ∈ layers, ∀ p ∈ langPkgs S l, ∀ p' ∈ langPkgs S l', p.id = p'.id → p.fp = p'.fp
   /-- OS package ids and language package ids are different (in the real store they differ in arch / kind) -/
-  disjoint : ∀ d ∈ S.osDbs, ∀ l ∈ layers, ∀ c ∈ fileOf l d, ∀ p ∈ S.scanDB d c,
+  disjoint : ∀ d ∈ S.allDbs, ∀ l ∈ layers, ∀ c ∈ fileOf l d, ∀ p ∈ S.scanDB d c,
     ∀ l' ∈ layers, ∀ p' ∈ langPkgs S l', p.id ≠ p'.id
 
 /-- `Tame` is decidable: every clause is a bounded check over the stack. -/
@@ -799,11 +799,11 @@ instance instDecidableTame (S : Scanners) (layers : List FSLayer) : Decidable (T
   let A3 := ∀ l ∈ layers, (whiteoutsOf l).length ≤ 1 ∧ whiteoutsOf l = whiteoutFiles l
   let A4 := ∀ l ∈ layers, ∀ w ∈ whiteoutsOf l, ¬ (base w = opqName ∧ dir w = ".")
   let A5 := ∀ l ∈ layers, ∀ l' ∈ layers, ∀ p ∈ langPkgs S l', hides l p.fp = (whiteoutFiles l).any fun w => covers w p.fp
-  let A6 := ∀ d ∈ S.osDbs, ∀ l ∈ layers, hides l d = false ∧ ∀ c ∈ fileOf l d, S.scanDB d c ≠ []
+  let A6 := ∀ d ∈ S.allDbs, ∀ l ∈ layers, hides l d = false ∧ ∀ c ∈ fileOf l d, S.scanDB d c ≠ []
   let A7 := layers.Pairwise fun l l' => ∀ e ∈ l.entries, ∀ c ∈ fileOf l e.1, ∀ p ∈ S.scanFile e.1 c,
       ∀ c' ∈ fileOf l' e.1, (∃ p' ∈ S.scanFile e.1 c', p'.id = p.id) ∨ hides l' e.1 = true
   let A8 := ∀ l ∈ layers, ∀ l' ∈ layers, ∀ p ∈ langPkgs S l, ∀ p' ∈ langPkgs S l', p.id = p'.id → p.fp = p'.fp
-  let A9 := ∀ d ∈ S.osDbs, ∀ l ∈ layers, ∀ c ∈ fileOf l d, ∀ p ∈ S.scanDB d c,
+  let A9 := ∀ d ∈ S.allDbs, ∀ l ∈ layers, ∀ c ∈ fileOf l d, ∀ p ∈ S.scanDB d c,
       ∀ l' ∈ layers, ∀ p' ∈ langPkgs S l', p.id ≠ p'.id
   have _d1 : Decidable A1 := inferInstance
   have _d2 : Decidable A2 := inferInstance
@@ -960,6 +960,22 @@ theorem linuxRep_ok (arts : List Layer) : linuxCoalesce arts = .ok (linuxRep art
 def osReps (S : Scanners) (layers : List FSLayer) : List Report :=
   S.osDbs.map fun d => linuxRep (layers.map (osArts S d))
 
+/-- the rhel coalescer's report (it never fails) -/
+def rhelRep (arts : List Layer) : Report :=
+  match rhelCoalesce arts with
+  | .ok r => r
+  | .error _ => {}
+
+theorem rhelRep_ok (arts : List Layer) : rhelCoalesce arts = .ok (rhelRep arts) := by
+  obtain ⟨r, h, _⟩ := rhelCoalesce_ok (S := False) arts
+  simp [rhelRep, h]
+
+def rhelReps (S : Scanners) (layers : List FSLayer) : List Report :=
+  S.rhelDbs.map fun d => rhelRep (layers.map (osArts S d))
+
+/-- the reports of the OS package database ecosystems -/
+def dbReps (S : Scanners) (layers : List FSLayer) : List Report := osReps S layers ++ rhelReps S layers
+
 def langRep (S : Scanners) (layers : List FSLayer) : Report := langFold (layers.map (langArts S)) {}
 
 def whRep (layers : List FSLayer) : Report := { files := whFold (layers.map whArts) [] }
@@ -985,15 +1001,22 @@ theorem coalesceAll_os (S : Scanners) (layers : List FSLayer) (ds : List String)
   | nil => rfl
   | cons d ds ih => simp [coalesceAll, coalesceKind, linuxRep_ok, ih]
 
+theorem coalesceAll_rhel (S : Scanners) (layers : List FSLayer) (ds : List String) :
+    coalesceAll (ds.map fun d => (Kind.rhel, layers.map (osArts S d))) =
+      some (ds.map fun d => rhelRep (layers.map (osArts S d))) := by
+  induction ds with
+  | nil => rfl
+  | cons d ds ih => simp [coalesceAll, coalesceKind, rhelRep_ok, ih]
+
 theorem coalesceAll_ecos (S : Scanners) (layers : List FSLayer) :
-    coalesceAll (ecosOf S layers) = some (osReps S layers ++ [langRep S layers, whRep layers]) := by
+    coalesceAll (ecosOf S layers) = some (dbReps S layers ++ [langRep S layers, whRep layers]) := by
   unfold ecosOf
-  rw [coalesceAll_append, coalesceAll_os]
-  simp [coalesceAll, coalesceKind, langCoalesce, whCoalesce, osReps, langRep, whRep, whFold]
+  rw [coalesceAll_append, coalesceAll_append, coalesceAll_os, coalesceAll_rhel]
+  simp [coalesceAll, coalesceKind, langCoalesce, whCoalesce, dbReps, osReps, rhelReps, langRep, whRep, whFold]
 
 /-- the merged report, before the resolver -/
 def merged (S : Scanners) (layers : List FSLayer) : Report :=
-  mergeSR {} (osReps S layers ++ [langRep S layers, whRep layers])
+  mergeSR {} (dbReps S layers ++ [langRep S layers, whRep layers])
 
 theorem indexModel_eq (S : Scanners) (layers : List FSLayer) :
     indexModel S layers = resolve (layers.map (·.hash)) (merged S layers) := by
@@ -1042,7 +1065,7 @@ theorem mentions_osArts {S : Scanners} {d : String} {l : FSLayer} (hos : ∀ c, 
       simp [osArts, hc, osPkgsOf, hs]
 
 /-- the last layer carrying the database file is the one the flattened image shows -/
-theorem present_osDb {S : Scanners} {layers : List FSLayer} (ht : Tame S layers) {d : String} (hd : d ∈ S.osDbs)
+theorem present_osDb {S : Scanners} {layers : List FSLayer} (ht : Tame S layers) {d : String} (hd : d ∈ S.allDbs)
     {pre post : List FSLayer} {l : FSLayer} (hl : layers = pre ++ l :: post) {c : String} (hc : fileOf l d = some c)
     (hpost : ∀ l' ∈ post, fileOf l' d = none) : present layers d = some c := by
   rw [present_some_iff]
@@ -1050,7 +1073,7 @@ theorem present_osDb {S : Scanners} {layers : List FSLayer} (ht : Tame S layers)
   exact (ht.osDb d hd l' (by rw [hl]; simp [hl'])).1
 
 /-- OS side, report ⇒ image -/
-theorem os_env_scan {S : Scanners} {layers : List FSLayer} (ht : Tame S layers) {d : String} (hd : d ∈ S.osDbs)
+theorem os_env_scan {S : Scanners} {layers : List FSLayer} (ht : Tame S layers) {d : String} (hd : d ∈ S.allDbs)
     {id : String} {es : List Env} (hes : aget id (linuxRep (layers.map (osArts S d))).envs = some es)
     {e : Env} (he : e ∈ es) : ∃ p ∈ scanImage S layers, p.id = id ∧ p.db = e.db := by
   obtain ⟨es', h1, e', h2, h3⟩ : ∃ es', aget id (linuxRep (layers.map (osArts S d))).envs = some es' ∧ ∃ e' ∈ es', e'.db = e.db :=
@@ -1088,7 +1111,7 @@ theorem os_env_scan {S : Scanners} {layers : List FSLayer} (ht : Tame S layers) 
   exact ⟨d, hd, by simp [hpres, hpc]⟩
 
 /-- OS side, image ⇒ report -/
-theorem os_scan_env {S : Scanners} {layers : List FSLayer} (ht : Tame S layers) {d : String} (hd : d ∈ S.osDbs)
+theorem os_scan_env {S : Scanners} {layers : List FSLayer} (ht : Tame S layers) {d : String} (hd : d ∈ S.allDbs)
     {c : String} (hpres : present layers d = some c) {p : Pkg} (hp : p ∈ osPkgsOf S d c) :
     ∃ es, aget p.id (linuxRep (layers.map (osArts S d))).envs = some es ∧ ∃ e ∈ es, e.db = d := by
   obtain ⟨pre, l, post, hl, hc, hpost⟩ := (present_some_iff layers d c).1 hpres
@@ -1114,6 +1137,109 @@ theorem os_scan_env {S : Scanners} {layers : List FSLayer} (ht : Tame S layers) 
   unfold linuxCoalesce at hok
   exact linuxFill_has _ _ _ hok d p hm
 
+/-! ### OS package databases under the rhel coalescer -/
+
+theorem rhel_layer_decomp {S : Scanners} {layers : List FSLayer} (ht : Tame S layers) {d : String} (hd : d ∈ S.allDbs)
+    {apre apost : List Layer} {a : Layer} (hdec : layers.map (osArts S d) = apre ++ a :: apost)
+    (ha : a.pkgs ≠ []) (hpost : ∀ b ∈ apost, b.pkgs = []) :
+    ∃ c, present layers d = some c ∧ a.pkgs = osPkgsOf S d c := by
+  obtain ⟨lpre, l, lpost, hl, _, hfa, hfpost⟩ := map_decomp hdec
+  subst hfa
+  cases hc : fileOf l d with
+  | none => simp [osArts, hc] at ha
+  | some c =>
+    refine ⟨c, ?_, by simp [osArts, hc]⟩
+    apply present_osDb ht hd hl hc
+    intro l' hl'
+    have hempty : (osArts S d l').pkgs = [] := hpost _ (by rw [← hfpost]; exact List.mem_map.2 ⟨l', hl', rfl⟩)
+    cases hf : fileOf l' d with
+    | none => rfl
+    | some c' =>
+      exfalso
+      have hl'mem : l' ∈ layers := by rw [hl]; simp [hl']
+      have hne := (ht.osDb d hd l' hl'mem).2 c' hf
+      simp only [osArts, hf, osPkgsOf, List.map_eq_nil_iff] at hempty
+      exact hne hempty
+
+/-- rhel side, report ⇒ image -/
+theorem rhel_env_scan {S : Scanners} {layers : List FSLayer} (ht : Tame S layers) {d : String} (hd : d ∈ S.allDbs)
+    {id : String} {es : List Env} (hes : aget id (rhelRep (layers.map (osArts S d))).envs = some es)
+    {e : Env} (he : e ∈ es) : ∃ p ∈ scanImage S layers, p.id = id ∧ p.db = e.db := by
+  obtain ⟨r', h1, hinv, _⟩ := rhelCoalesce_ok (S := False) (layers.map (osArts S d))
+  rw [rhelRep_ok] at h1; cases h1
+  obtain ⟨hpk, hall⟩ := hinv.envOk id es (mem_of_aget hes)
+  -- the environment's database is d
+  obtain ⟨⟨a', ha', _, q', hq', hq'db, _⟩, _⟩ := hall e he
+  obtain ⟨l', _, hla'⟩ := List.mem_map.1 ha'
+  subst hla'
+  obtain ⟨c', _, hq'c⟩ := osArts_pkgs hq'
+  have hedb : e.db = d := by rw [← hq'db]; exact (mem_osPkgsOf hq'c).1
+  -- the id is in the last package-bearing layer
+  obtain ⟨q, hq, hqid⟩ := (rhelCoalesce_ids _ _ (rhelRep_ok _) id).1 hpk
+  have hne : lastPkgs (layers.map (osArts S d)) ≠ [] := by intro h0; rw [h0] at hq; simp at hq
+  obtain ⟨apre, a, apost, hdec, hlast, hpost⟩ := lastPkgs_spec hne
+  obtain ⟨c, hpres, hapk⟩ := rhel_layer_decomp ht hd hdec (by rw [← hlast]; exact hne) hpost
+  rw [hlast, hapk] at hq
+  refine ⟨q, ?_, hqid, by rw [hedb]; exact (mem_osPkgsOf hq).1⟩
+  unfold scanImage
+  apply List.mem_append_left
+  rw [List.mem_flatMap]
+  exact ⟨d, hd, by simp [hpres, hq]⟩
+
+/-- rhel side, image ⇒ report -/
+theorem rhel_scan_env {S : Scanners} {layers : List FSLayer} (_ht : Tame S layers) {d : String} (_hd : d ∈ S.allDbs)
+    {c : String} (hpres : present layers d = some c) {p : Pkg} (hp : p ∈ osPkgsOf S d c) :
+    ∃ es, aget p.id (rhelRep (layers.map (osArts S d))).envs = some es ∧ ∃ e ∈ es, e.db = d := by
+  obtain ⟨pre, l, post, hl, hc, hpost⟩ := (present_some_iff layers d c).1 hpres
+  have hdec : layers.map (osArts S d) = pre.map (osArts S d) ++ osArts S d l :: post.map (osArts S d) := by
+    rw [hl]; simp
+  have hapk : (osArts S d l).pkgs = osPkgsOf S d c := by simp [osArts, hc]
+  have hne : (osArts S d l).pkgs ≠ [] := by rw [hapk]; intro h0; rw [h0] at hp; simp at hp
+  have hlater : ∀ b ∈ post.map (osArts S d), b.pkgs = [] := by
+    intro b hb
+    obtain ⟨l', hl', hbe⟩ := List.mem_map.1 hb
+    subst hbe
+    simp [osArts, (hpost l' hl').1]
+  have hlast := lastPkgs_decomp hdec hne hlater
+  obtain ⟨r', h1, hinv, _⟩ := rhelCoalesce_ok (S := False) (layers.map (osArts S d))
+  rw [rhelRep_ok] at h1; cases h1
+  have hpk := (rhelCoalesce_ids _ _ (rhelRep_ok (layers.map (osArts S d))) p.id).2 ⟨p, by rw [hlast, hapk]; exact hp, rfl⟩
+  cases hg : aget p.id (rhelRep (layers.map (osArts S d))).pkgs with
+  | none => rw [hg] at hpk; simp at hpk
+  | some p' =>
+    obtain ⟨_, es, hes, hnee⟩ := hinv.pkgEnv p.id p' (mem_of_aget hg)
+    cases es with
+    | nil => exact absurd rfl hnee
+    | cons e es' =>
+      refine ⟨e :: es', hes, e, List.mem_cons_self, ?_⟩
+      obtain ⟨⟨a', ha', _, q', hq', hq'db, _⟩, _⟩ := (hinv.envOk p.id (e :: es') (mem_of_aget hes)).2 e List.mem_cons_self
+      obtain ⟨l', _, hla'⟩ := List.mem_map.1 ha'
+      subst hla'
+      obtain ⟨c', _, hq'c⟩ := osArts_pkgs hq'
+      rw [← hq'db]; exact (mem_osPkgsOf hq'c).1
+
+/-- OS side for either coalescer, report ⇒ image -/
+theorem db_env_scan {S : Scanners} {layers : List FSLayer} (ht : Tame S layers) {r : Report} (hr : r ∈ dbReps S layers)
+    {id : String} {es : List Env} (hm : (id, es) ∈ r.envs) {e : Env} (he : e ∈ es) :
+    ∃ p ∈ scanImage S layers, p.id = id ∧ p.db = e.db := by
+  rcases List.mem_append.1 hr with hr | hr
+  · obtain ⟨d, hd, hre⟩ := List.mem_map.1 hr
+    subst hre
+    have hu := (linuxCoalesce_pkgs (linuxRep_ok (layers.map (osArts S d)))).2.1
+    exact os_env_scan ht (List.mem_append_left _ hd) (aget_of_mem_uniq hu hm) he
+  · obtain ⟨d, hd, hre⟩ := List.mem_map.1 hr
+    subst hre
+    have hu := (rhelCoalesce_pkgs (rhelRep_ok (layers.map (osArts S d)))).2.1
+    exact rhel_env_scan ht (List.mem_append_right _ hd) (aget_of_mem_uniq hu hm) he
+
+/-- OS side for either coalescer, image ⇒ report -/
+theorem db_scan_env {S : Scanners} {layers : List FSLayer} (ht : Tame S layers) {d : String} (hd : d ∈ S.allDbs)
+    {c : String} (hpres : present layers d = some c) {p : Pkg} (hp : p ∈ osPkgsOf S d c) :
+    ∃ r ∈ dbReps S layers, ∃ es, aget p.id r.envs = some es ∧ ∃ e ∈ es, e.db = d := by
+  rcases List.mem_append.1 hd with h | h
+  · exact ⟨_, List.mem_append_left _ (List.mem_map.2 ⟨d, h, rfl⟩), os_scan_env ht hd hpres hp⟩
+  · exact ⟨_, List.mem_append_right _ (List.mem_map.2 ⟨d, h, rfl⟩), rhel_scan_env ht hd hpres hp⟩
+
 /-! ### the `Files` map of the merged report -/
 
 theorem keysUniq_whFold (arts : List Layer) (m : List (String × File)) (h : KeysUniq m) : KeysUniq (whFold arts m) := by
@@ -1128,11 +1254,16 @@ theorem keysUniq_whFold (arts : List Layer) (m : List (String × File)) (h : Key
     | nil => exact h
     | cons f fs ihf => exact ihf _ (keysUniq_aset _ _ h)
 
-theorem osReps_files {S : Scanners} {layers : List FSLayer} {r : Report} (h : r ∈ osReps S layers) : r.files = [] := by
-  obtain ⟨d, _, hr⟩ := List.mem_map.1 h
-  obtain ⟨r', h1, _, _, h4⟩ := linuxCoalesce_ok (S := False) (layers.map (osArts S d))
-  rw [linuxRep_ok] at h1; cases h1
-  rw [← hr]; exact h4
+theorem dbReps_files {S : Scanners} {layers : List FSLayer} {r : Report} (h : r ∈ dbReps S layers) : r.files = [] := by
+  rcases List.mem_append.1 h with h | h
+  · obtain ⟨d, _, hr⟩ := List.mem_map.1 h
+    obtain ⟨r', h1, _, _, h4⟩ := linuxCoalesce_ok (S := False) (layers.map (osArts S d))
+    rw [linuxRep_ok] at h1; cases h1
+    rw [← hr]; exact h4
+  · obtain ⟨d, _, hr⟩ := List.mem_map.1 h
+    obtain ⟨r', h1, _, h4⟩ := rhelCoalesce_ok (S := False) (layers.map (osArts S d))
+    rw [rhelRep_ok] at h1; cases h1
+    rw [← hr]; exact h4
 
 theorem langRep_files (S : Scanners) (layers : List FSLayer) : (langRep S layers).files = [] := by
   obtain ⟨r', h1, _, _, h4⟩ := langCoalesce_ok (S := False) (layers.map (langArts S))
@@ -1146,7 +1277,7 @@ theorem merged_files_from {S : Scanners} {layers : List FSLayer} {k : String} {f
   rcases mergeSR_files_from _ _ k f h with h1 | ⟨r, hr, h1⟩
   · simp at h1
   · rcases List.mem_append.1 hr with h2 | h2
-    · rw [osReps_files h2] at h1; simp at h1
+    · rw [dbReps_files h2] at h1; simp at h1
     · simp only [List.mem_cons, List.mem_nil_iff, or_false] at h2
       rcases h2 with h2 | h2
       · rw [h2, langRep_files] at h1; simp at h1
@@ -1179,7 +1310,7 @@ theorem merged_files_has {S : Scanners} {layers : List FSLayer} (ht : Tame S lay
     simp only [whRep]
     rw [hdec, List.map_append, List.map_cons]
     exact whFold_single [] (by simp [whArts, hw]) hpost
-  have : merged S layers = mergeSR {} ((osReps S layers ++ [langRep S layers]) ++ [whRep layers]) := by
+  have : merged S layers = mergeSR {} ((dbReps S layers ++ [langRep S layers]) ++ [whRep layers]) := by
     simp [merged]
   rw [this]
   exact mergeSR_files_last _ _ _ _ _ (keysUniq_whFold _ _ (by simp [KeysUniq])) hmem
@@ -1266,37 +1397,56 @@ theorem pkgDeleted_iff_hidden {S : Scanners} {layers : List FSLayer} (ht : Tame 
 
 /-! ### which report an id comes from -/
 
-theorem os_pkg_origin {S : Scanners} {layers : List FSLayer} {r : Report} (hr : r ∈ osReps S layers)
+theorem os_pkg_origin {S : Scanners} {layers : List FSLayer} {r : Report} (hr : r ∈ dbReps S layers)
     {id : String} {p : Pkg} (hm : (id, p) ∈ r.pkgs) :
-    p.fp = "" ∧ ∃ d ∈ S.osDbs, ∃ l ∈ layers, ∃ c, fileOf l d = some c ∧ ∃ p0 ∈ S.scanDB d c, p0.id = id := by
-  obtain ⟨d, hd, hre⟩ := List.mem_map.1 hr
-  subst hre
-  obtain ⟨r', h1, hinv, _, _⟩ := linuxCoalesce_ok (S := False) (layers.map (osArts S d))
-  rw [linuxRep_ok] at h1; cases h1
-  have hid := (hinv.pkgEnv id p hm).1
-  have hall := (linuxCoalesce_pkgs (linuxRep_ok (layers.map (osArts S d)))).2.2 id p hm
-  obtain ⟨a, ha, hpa⟩ := List.mem_flatMap.1 hall
-  obtain ⟨l, hl, hla⟩ := List.mem_map.1 ha
-  subst hla
-  obtain ⟨c, hc, hpc⟩ := osArts_pkgs hpa
-  obtain ⟨_, hfp, p0, hp0, hid0⟩ := mem_osPkgsOf hpc
-  exact ⟨hfp, d, hd, l, hl, c, hc, p0, hp0, by rw [← hid0, hid]⟩
+    p.fp = "" ∧ ∃ d ∈ S.allDbs, ∃ l ∈ layers, ∃ c, fileOf l d = some c ∧ ∃ p0 ∈ S.scanDB d c, p0.id = id := by
+  have key : ∀ d, p.id = id → p ∈ allPkgs (layers.map (osArts S d)) → d ∈ S.allDbs →
+      p.fp = "" ∧ ∃ d ∈ S.allDbs, ∃ l ∈ layers, ∃ c, fileOf l d = some c ∧ ∃ p0 ∈ S.scanDB d c, p0.id = id := by
+    intro d hid hall hd
+    obtain ⟨a, ha, hpa⟩ := List.mem_flatMap.1 hall
+    obtain ⟨l, hl, hla⟩ := List.mem_map.1 ha
+    subst hla
+    obtain ⟨c, hc, hpc⟩ := osArts_pkgs hpa
+    obtain ⟨_, hfp, p0, hp0, hid0⟩ := mem_osPkgsOf hpc
+    exact ⟨hfp, d, hd, l, hl, c, hc, p0, hp0, by rw [← hid0, hid]⟩
+  rcases List.mem_append.1 hr with hr | hr
+  · obtain ⟨d, hd, hre⟩ := List.mem_map.1 hr
+    subst hre
+    obtain ⟨r', h1, hinv, _, _⟩ := linuxCoalesce_ok (S := False) (layers.map (osArts S d))
+    rw [linuxRep_ok] at h1; cases h1
+    exact key d (hinv.pkgEnv id p hm).1
+      ((linuxCoalesce_pkgs (linuxRep_ok (layers.map (osArts S d)))).2.2 id p hm) (List.mem_append_left _ hd)
+  · obtain ⟨d, hd, hre⟩ := List.mem_map.1 hr
+    subst hre
+    obtain ⟨r', h1, hinv, _⟩ := rhelCoalesce_ok (S := False) (layers.map (osArts S d))
+    rw [rhelRep_ok] at h1; cases h1
+    exact key d (hinv.pkgEnv id p hm).1
+      ((rhelCoalesce_pkgs (rhelRep_ok (layers.map (osArts S d)))).2.2 id p hm) (List.mem_append_right _ hd)
 
-theorem os_env_has_pkg {S : Scanners} {layers : List FSLayer} {r : Report} (hr : r ∈ osReps S layers)
+theorem os_env_has_pkg {S : Scanners} {layers : List FSLayer} {r : Report} (hr : r ∈ dbReps S layers)
     {id : String} {es : List Env} (hm : (id, es) ∈ r.envs) : ∃ p, (id, p) ∈ r.pkgs := by
-  obtain ⟨d, hd, hre⟩ := List.mem_map.1 hr
-  subst hre
-  obtain ⟨r', h1, hinv, _, _⟩ := linuxCoalesce_ok (S := False) (layers.map (osArts S d))
-  rw [linuxRep_ok] at h1; cases h1
-  have := (hinv.envOk id es hm).1
-  cases hg : aget id (linuxRep (layers.map (osArts S d))).pkgs with
-  | none => simp [hg] at this
-  | some p => exact ⟨p, mem_of_aget hg⟩
+  have key : ∀ {B : String → Env → Prop}, Inv False B r → ∃ p, (id, p) ∈ r.pkgs := by
+    intro B hinv
+    have := (hinv.envOk id es hm).1
+    cases hg : aget id r.pkgs with
+    | none => simp [hg] at this
+    | some p => exact ⟨p, mem_of_aget hg⟩
+  rcases List.mem_append.1 hr with hr | hr
+  · obtain ⟨d, _, hre⟩ := List.mem_map.1 hr
+    subst hre
+    obtain ⟨r', h1, hinv, _, _⟩ := linuxCoalesce_ok (S := False) (layers.map (osArts S d))
+    rw [linuxRep_ok] at h1; cases h1
+    exact key hinv
+  · obtain ⟨d, _, hre⟩ := List.mem_map.1 hr
+    subst hre
+    obtain ⟨r', h1, hinv, _⟩ := rhelCoalesce_ok (S := False) (layers.map (osArts S d))
+    rw [rhelRep_ok] at h1; cases h1
+    exact key hinv
 
 /-- a language package id never occurs in an OS report -/
 theorem lang_id_not_os {S : Scanners} {layers : List FSLayer} (ht : Tame S layers)
     {l0 : FSLayer} (hl0 : l0 ∈ layers) {p0 : Pkg} (hp0 : p0 ∈ langPkgs S l0)
-    {r : Report} (hr : r ∈ osReps S layers) {p : Pkg} (hm : (p0.id, p) ∈ r.pkgs) : False := by
+    {r : Report} (hr : r ∈ dbReps S layers) {p : Pkg} (hm : (p0.id, p) ∈ r.pkgs) : False := by
   obtain ⟨_, d, hd, l, hl, c, hc, q, hq, hqid⟩ := os_pkg_origin hr hm
   exact ht.disjoint d hd l hl c hc q hq l0 hl0 p0 hp0 hqid
 
@@ -1351,14 +1501,14 @@ theorem merged_lang_id {S : Scanners} {layers : List FSLayer} (ht : Tame S layer
   obtain ⟨g1, g2⟩ := langRep_get S layers id
   rw [hlast] at g1 g2
   simp only at g1 g2
-  have hin : langRep S layers ∈ osReps S layers ++ [langRep S layers, whRep layers] := by simp
+  have hin : langRep S layers ∈ dbReps S layers ++ [langRep S layers, whRep layers] := by simp
   constructor
-  · have hex := (mergeSR_envs (osReps S layers ++ [langRep S layers, whRep layers]) {} (by simp [KeysUniq]) id (langEnv a pL)).2
+  · have hex := (mergeSR_envs (dbReps S layers ++ [langRep S layers, whRep layers]) {} (by simp [KeysUniq]) id (langEnv a pL)).2
       (Or.inr ⟨langRep S layers, hin, [langEnv a pL], mem_of_aget g1, by simp⟩)
     obtain ⟨ws, hws, hmem⟩ := hex
     refine ⟨ws, hws, hmem, ?_⟩
     intro e he
-    rcases (mergeSR_envs (osReps S layers ++ [langRep S layers, whRep layers]) {} (by simp [KeysUniq]) id e).1 ⟨ws, hws, he⟩ with
+    rcases (mergeSR_envs (dbReps S layers ++ [langRep S layers, whRep layers]) {} (by simp [KeysUniq]) id e).1 ⟨ws, hws, he⟩ with
       ⟨es, h0, _⟩ | ⟨r, hr, es, h1, h2⟩
     · simp at h0
     · rcases List.mem_append.1 hr with h3 | h3
@@ -1374,7 +1524,7 @@ theorem merged_lang_id {S : Scanners} {layers : List FSLayer} (ht : Tame S layer
           cases this
           simpa using h2
         · subst h3; simp [whRep] at h1
-  · have hsome := mergeSR_pkgs_has (osReps S layers ++ [langRep S layers, whRep layers]) {} id
+  · have hsome := mergeSR_pkgs_has (dbReps S layers ++ [langRep S layers, whRep layers]) {} id
       (Or.inr ⟨langRep S layers, hin, pL, mem_of_aget g2⟩)
     cases hg : aget id (merged S layers).pkgs with
     | none => rw [merged] at hg; rw [hg] at hsome; simp at hsome
@@ -1418,8 +1568,8 @@ theorem index_eq_flatten {S : Scanners} {layers : List FSLayer} (ht : Tame S lay
   refine ⟨r, by rw [indexModel_eq]; exact hr, ?_⟩
   intro id db
   have hex := resolve_exact (layers.map (·.hash)) (merged S layers) r (merged_inv S layers) (merged_uniq S layers).pkgs hr id
-  have hlist : ∀ rr, rr ∈ osReps S layers ++ [langRep S layers, whRep layers] →
-      rr ∈ osReps S layers ∨ rr = langRep S layers ∨ rr = whRep layers := by
+  have hlist : ∀ rr, rr ∈ dbReps S layers ++ [langRep S layers, whRep layers] →
+      rr ∈ dbReps S layers ∨ rr = langRep S layers ∨ rr = whRep layers := by
     intro rr hrr
     rcases List.mem_append.1 hrr with h | h
     · exact Or.inl h
@@ -1431,10 +1581,7 @@ theorem index_eq_flatten {S : Scanners} {layers : List FSLayer} (ht : Tame S lay
     rcases (mergeSR_envs _ {} (by simp [KeysUniq]) id e).1 ⟨es, hMenvs, he⟩ with ⟨es0, h0, _⟩ | ⟨rr, hrr, es', h1, h2⟩
     · simp at h0
     · rcases hlist rr hrr with hos | hlang | hwh
-      · obtain ⟨d, hd, hre⟩ := List.mem_map.1 hos
-        subst hre
-        have hu := (linuxCoalesce_pkgs (linuxRep_ok (layers.map (osArts S d)))).2.1
-        obtain ⟨q, hq, hqid, hqdb⟩ := os_env_scan ht hd (aget_of_mem_uniq hu h1) h2
+      · obtain ⟨q, hq, hqid, hqdb⟩ := db_env_scan ht hos h1 h2
         exact ⟨q, hq, hqid, by rw [hqdb, hdb]⟩
       · subst hlang
         have hg := aget_of_mem_uniq (langRep_uniq S layers).1 h1
@@ -1508,10 +1655,9 @@ theorem index_eq_flatten {S : Scanners} {layers : List FSLayer} (ht : Tame S lay
       | none => simp [hpres] at hpd
       | some c =>
         simp only [hpres] at hpd
-        obtain ⟨es, hes, e, he, hedb⟩ := os_scan_env ht hd hpres hpd
+        obtain ⟨rdb, hrdb, es, hes, e, he, hedb⟩ := db_scan_env ht hd hpres hpd
         obtain ⟨hpdb, _, p00, hp00, hid00⟩ := mem_osPkgsOf hpd
-        have hin : linuxRep (layers.map (osArts S d)) ∈ osReps S layers ++ [langRep S layers, whRep layers] :=
-          List.mem_append_left _ (List.mem_map.2 ⟨d, hd, rfl⟩)
+        have hin : rdb ∈ dbReps S layers ++ [langRep S layers, whRep layers] := List.mem_append_left _ hrdb
         obtain ⟨ws, hws0, hews⟩ := (mergeSR_envs _ {} (by simp [KeysUniq]) p.id e).2
           (Or.inr ⟨_, hin, es, mem_of_aget hes, he⟩)
         have hws : aget p.id (merged S layers).envs = some ws := hws0
@@ -1643,6 +1789,18 @@ def tameStack : List FSLayer := [
   { hash := "L1", entries := [(dpkgDB, .file "bash2+curl"), ("site/.wh.requests-1.dist-info", .file ""),
       ("site/requests-2.dist-info/METADATA", .file "requests2")] },
   { hash := "L2", entries := [("app/node_modules/.wh.left-pad", .file ""), ("srv/readme", .file "hello")] }]
+
+def rpmDB : String := "var/lib/rpm/rpmdb.sqlite"
+
+/-- the same toy scanners with the OS database coalesced by rhel.Coalescer -/
+def S1 : Scanners := { S0 with osDbs := [], rhelDbs := [rpmDB] }
+
+/-- install, upgrade, an unrelated layer, with an rpm-style database under the rhel coalescer -/
+def rhelStack : List FSLayer := [
+  { hash := "L0", entries := [(rpmDB, .file "bash1"), ("site/requests-1.dist-info/METADATA", .file "requests1")] },
+  { hash := "L1", entries := [(rpmDB, .file "bash2+curl")] },
+  { hash := "L2", entries := [("srv/readme", .file "hello")] },
+  { hash := "L3", entries := [("site/.wh.requests-1.dist-info", .file "")] }]
 
 /-- two whiteouts in one layer -/
 def twoWhiteouts : List FSLayer := [
